@@ -10,6 +10,7 @@ ORACLES = {
     # including non-Exception BaseExceptions such as cancellation
     'UserTransport': {'returns': 'opt:=pjrpc.common.v20:Response|=pjrpc.common.v20:BatchResponse',
                       'raises': ('Exception', 'UserBaseException')},
+    'UserValidator': {'returns': 'none', 'raises': ('pjrpc.common.exceptions:IdentityError',)},
     'UserJitter': {'returns': 'number', 'raises': ()},
     'UserCallback': {'returns': 'any', 'raises': ('Exception',)},
     'UserExcludeFn': {'returns': 'any', 'raises': ()},
@@ -33,6 +34,9 @@ FIELD_TYPES = {
 
 # methods of abstract user objects (C19: tracers do not raise)
 ORACLE_METHODS = {
+    # the transport implemented by a concrete client: returns the response text (or nothing) or raises
+    'AbstractClient': {'_request': {'returns': 'opt:str', 'raises': ('Exception', 'UserBaseException')}},
+    'AbstractAsyncClient': {'_request': {'returns': 'opt:str', 'raises': ('Exception', 'UserBaseException')}},
     'UserTracer': {
         'on_request_begin': {'returns': 'none', 'raises': ()},
         'on_request_end': {'returns': 'none', 'raises': ()},
